@@ -137,6 +137,48 @@ IeeeLit == {Bin(c, Bin("/", FL(n1), FL(n2)), Bin("/", FL(n3), FL(n4))) : c \in C
 RawDump == {"@dump(" \o KName(i) \o ")" : i \in KI} \cup {"@dump([" \o KName(i) \o ", " \o KName(j) \o "])" : i \in KI, j \in {13, 15}}
            \cup {"@dump({a: " \o KName(i) \o "})" : i \in KI} \cup {"@dump([])", "@dump({})", "@dump([[]])", "@dump([[], {}])", "@dump({a: [], b: {}})", "@dump(\"\")",
                   "@dump([1, 2].slice(2))", "@dump(\"\".split(\",\"))", "@dump(nil)", "@dump(1.5, true, nil)"}
+\* IEEE-754 facts about decimal literals that are not dyadic rationals (binary64, round to nearest even; the table was
+\* computed once with a reference implementation): the value model cannot represent 0.1, but these comparisons have one
+\* right answer, and an implementation that rounds "helpfully" gets them wrong
+IeeeFacts == {<<"0.1 + 0.2 == 0.3", "0">>,
+              <<"0.3 - 0.1 == 0.2", "0">>,
+              <<"4.4 - 1.0 == 3.4", "0">>,
+              <<"0.1 * 3.0 == 0.3", "0">>,
+              <<"1.1 + 2.2 == 3.3", "0">>,
+              <<"0.5 - 0.25 == 0.25", "1">>,
+              <<"0.1 + 0.2 > 0.3", "1">>,
+              <<"0.3 - 0.1 < 0.2", "1">>,
+              <<"4.4 - 1.0 > 3.4", "1">>,
+              <<"1.0 - 0.9 == 0.1", "0">>,
+              <<"1.0 - 0.9 < 0.1", "1">>,
+              <<"0.7 + 0.1 == 0.8", "0">>,
+              <<"0.7 + 0.1 < 0.8", "1">>,
+              <<"3.3 / 1.1 == 3.0", "0">>,
+              <<"3.3 / 1.1 > 3.0", "0">>,
+              <<"0.1 * 0.1 == 0.01", "0">>,
+              <<"0.1 * 0.1 > 0.01", "1">>,
+              <<"2.2 - 1.1 == 1.1", "1">>,
+              <<"1.5 - 0.3 == 1.2", "1">>,
+              <<"1.5 - 0.3 < 1.2", "0">>,
+              <<"0.3 - 0.2 == 0.1", "0">>,
+              <<"0.3 - 0.2 < 0.1", "1">>,
+              <<"100.1 - 0.1 == 100.0", "1">>,
+              <<"9.95 - 0.05 == 9.9", "0">>,
+              <<"0.1 + 0.7 == 0.8", "0">>,
+              <<"0.2 + 0.4 == 0.6", "0">>,
+              <<"0.2 + 0.4 > 0.6", "1">>,
+              <<"1.1 * 1.1 == 1.21", "0">>,
+              <<"1.1 * 1.1 > 1.21", "1">>,
+              <<"0.3 / 0.1 == 3.0", "0">>,
+              <<"0.3 / 0.1 < 3.0", "1">>,
+              <<"0.6 / 0.2 == 3.0", "0">>,
+              <<"0.6 / 0.2 < 3.0", "1">>,
+              <<"5.5 - 2.2 == 3.3", "1">>,
+              <<"1.0 / 3.0 * 3.0 == 1.0", "1">>,
+              <<"2.0 / 3.0 * 3.0 == 2.0", "1">>,
+              <<"0.1 + 0.2 - 0.3 == 0.0", "0">>,
+              <<"0.1 + 0.2 - 0.3 > 0.0", "1">>}
+
 Cases ==
   CASE Family = "raw09" -> {[kind |-> "raw", src |-> r, b |-> 0, lay |-> "sp"] : r \in RawAny \cup RawDump}
     [] Family = "pairs"   -> {[kind |-> "tree", e |-> e, b |-> b, lay |-> l] : e \in Pairs, b \in {1, 2, 3, 4, 5}, l \in {"sp", "tight"}}
@@ -148,6 +190,8 @@ Cases ==
     [] Family = "assign"  -> {[kind |-> "assign", e |-> e, b |-> b, lay |-> l] : e \in Pairs \cup Terns \cup Mixed, b \in {1, 3}, l \in {"sp", "tight"}}
     [] Family = "ieee" -> {[kind |-> "tree", e |-> e, b |-> b, lay |-> "sp"] : e \in Ieee, b \in {10, 11, 12, 13}}
                           \cup {[kind |-> "tree", e |-> e, b |-> 12, lay |-> l] : e \in IeeeLit, l \in {"sp", "tight"}}
+                          \cup {[kind |-> "fact", src |-> "{{ " \o f[1] \o " }}", out |-> f[2], b |-> 0, lay |-> "sp"] : f \in IeeeFacts}
+                          \cup {[kind |-> "fact", src |-> "{{ x = " \o f[1] \o " }}{{ x ? \"1\" : \"0\" }}", out |-> f[2], b |-> 0, lay |-> "sp"] : f \in IeeeFacts}
     [] Family = "kindsinfix" -> {[kind |-> "tree", e |-> e, b |-> 0, lay |-> "sp"] : e \in KindsInfix}
     [] Family = "kindsother" -> {[kind |-> "tree", e |-> e, b |-> 0, lay |-> l] : e \in KindsOther, l \in {"sp", "tight"}}
     [] Family = "reuse"   -> {[kind |-> "tree", e |-> e, b |-> b, lay |-> l] : e \in Reuse, b \in {1, 2, 3, 9}, l \in {"sp", "tight"}}
@@ -155,12 +199,12 @@ Cases ==
     [] Family = "flat2"   -> {[kind |-> "toks", ts |-> ts, b |-> b, lay |-> l] : ts \in Flat2 \cup FlatLit, b \in {1, 2, 3, 4, 5, 6, 7}, l \in {"sp", "tight", "wide"}}
     [] Family = "flat3"   -> {[kind |-> "toks", ts |-> ts, b |-> b, lay |-> l] : ts \in Flat3, b \in {1, 2, 5}, l \in {"sp"}}
 
-TreeOf(c) == IF c.kind \in {"tree", "assign"} THEN c.e ELSE IF c.kind = "multi" THEN c.es[1] ELSE Parse(c.ts)
+TreeOf(c) == IF c.kind = "fact" THEN NilL ELSE IF c.kind \in {"tree", "assign"} THEN c.e ELSE IF c.kind = "multi" THEN c.es[1] ELSE Parse(c.ts)
 RECURSIVE MultiSrc(_)
 MultiSrc(es) == IF es = <<>> THEN "" ELSE "{{ " \o Source(es[1], "sp") \o " }}" \o (IF Len(es) = 1 THEN "" ELSE "|" \o MultiSrc(Tail(es)))
 \* C01: the right-hand side of an assignment is a complete expression
 SrcOf(c) == CASE c.kind = "tree" -> PrintSrc(c.e, c.lay)
-              [] c.kind = "raw" -> c.src
+              [] c.kind \in {"raw", "fact"} -> c.src
               [] c.kind = "multi" -> MultiSrc(c.es)
               [] c.kind = "assign" -> Open(c.lay) \o JoinToks(<<T("word", "x"), T("assign", "=")>> \o Toks(c.e), c.lay) \o Close(c.lay)
                                       \o "|{{ x }}"
@@ -192,10 +236,10 @@ MultiOut(es, sc) == IF es = <<>> THEN [ok |-> TRUE, out |-> ""]
                               IF ~r.ok THEN r ELSE [ok |-> TRUE, out |-> Show(v) \o (IF Len(es) = 1 THEN "" ELSE "|" \o r.out)]
 ExpectMulti(c) == LET r == MultiOut(c.es, <<Bind(c.b)>>) IN
                   IF r.ok THEN [kind |-> "out", out |-> r.out] ELSE IF IsErr(r.bad) THEN [kind |-> "err", why |-> r.bad.why] ELSE [kind |-> "any"]
-Record(c) == LET t == IF c.kind = "raw" THEN NilL ELSE TreeOf(c)
+Record(c) == LET t == IF c.kind \in {"raw", "fact"} THEN NilL ELSE TreeOf(c)
                  v == Ev(t, <<Bind(c.b)>>) IN
              [src |-> SrcOf(c), data |-> EncData(Bind(c.b)),
-              expect |-> IF c.kind = "raw" THEN [kind |-> "any"] ELSE IF c.kind = "multi" THEN ExpectMulti(c) ELSE IF c.kind = "assign" THEN ExpectAssign(v) ELSE Expect(v),
+              expect |-> IF c.kind = "fact" THEN [kind |-> "out", out |-> c.out] ELSE IF c.kind = "raw" THEN [kind |-> "any"] ELSE IF c.kind = "multi" THEN ExpectMulti(c) ELSE IF c.kind = "assign" THEN ExpectAssign(v) ELSE Expect(v),
               tags |-> <<Family, c.lay>>]
 
 Init == case \in Cases /\ rec = [src |-> ""]
